@@ -264,3 +264,90 @@ def run_filter_arity(P, rep, rule="R-ARITY.filters"):
                     rep.ok(rule, site, P.where(fn), "rejects positional and keyword arguments")
     rep.analysed[rule + ".from_args"] = n1
     rep.analysed[rule + ".parse"] = n2
+
+
+# ---------------------------------------------------------------------------------------
+# R-NODROP: an element taken from the block reader is parsed (or consumed as a delimiter tag)
+
+NODROP_EXEMPT = {
+    # one line of reason per exception
+    "<liquid_lib::stdlib::blocks::comment_block::CommentBlock as %s>::parse" % PB:
+        "a comment discards its body by contract (R-BLOCKBODY checks what it may and may not parse)",
+}
+CONSUMERS = ("BlockElement::parse", "Tag::parse", "Tag::into_tokens", "Tag::tokens", "TagBlock::parse_all")
+
+
+def run_nodrop(P, rep, rule="R-NODROP"):
+    """Every loop `while let Some(element) = tokens.next()?` hands each element to BlockElement::parse / Tag::parse,
+    or consumes it as a delimiter tag (into_tokens / parse_all); no path returns to the reader with the element
+    silently dropped (dropped text would be accepted without ever being checked)."""
+    from r_pair import ok_successor
+    n = 0
+    for fn in sorted(P.fns.values(), key=lambda f: f.id):
+        if fn.crate not in ("liquid_core", "liquid_lib") or "::test" in fn.id:
+            continue
+        nexts = [(bi, t) for bi, t in P.calls(fn) if t.get("f") and t["f"]["name"].endswith("TagBlock::<'a, 'b>::next")
+                 or (t.get("f") and t["f"]["name"].endswith("TagBlock::next"))]
+        if not nexts:
+            continue
+        for k, (bi, t) in enumerate(nexts):
+            site = "%s next#%d" % (fn.key, k)
+            if fn.key in NODROP_EXEMPT:
+                rep.ok(rule, site, P.where(fn, t["line"]), "exempt: " + NODROP_EXEMPT[fn.key])
+                continue
+            n += 1
+            s = ok_successor(P, fn, bi)
+            if s is None:
+                rep.viol(rule, site + " success-edge", P.where(fn, t["line"]), "success edge of TagBlock::next not found")
+                continue
+            cons = {b2 for b2, t2 in P.calls(fn) if t2.get("f") and any(c in t2["f"]["name"].replace("::<'a, 'b>", "").replace("::<'a>", "") for c in CONSUMERS)}
+            r = P.reach(fn, [s], stop=cons)
+            if bi in r:
+                rep.viol(rule, site + " dropped", P.where(fn, t["line"]),
+                         "an element read from the block can be skipped: a path returns to TagBlock::next without BlockElement::parse / "
+                         "Tag::parse / into_tokens / parse_all — text on that path is accepted without being checked")
+            else:
+                rep.ok(rule, site, P.where(fn, t["line"]), "every path back to the reader passes %s" % "/".join(sorted({
+                    P.fns and fn.blocks[b2]["t"]["f"]["id"].rsplit("::", 1)[1] for b2 in cons})))
+    rep.analysed[rule + ".readers"] = n
+
+
+# ---------------------------------------------------------------------------------------
+# R-BODYKEEP: parsed body elements are kept, in order
+
+BODY_SHRINK = ("clear", "truncate", "retain", "retain_mut", "pop", "remove", "swap_remove", "drain", "dedup", "dedup_by", "dedup_by_key",
+               "split_off", "reverse", "swap", "rotate_left", "rotate_right", "sort_by", "sort_by_key", "insert", "extract_if", "take", "replace")
+
+
+def run_bodykeep(P, rep, rule="R-BODYKEEP"):
+    """A vector of parsed elements (Vec<Box<dyn Renderable>>) is only created, pushed to, extended and moved into a
+    Template: nothing removes, reorders or replaces parsed elements (e.g. a 'blank body' shortcut dropping whitespace text)."""
+    n = 0
+    bad = 0
+    for fn in sorted(P.fns.values(), key=lambda f: f.id):
+        if fn.crate not in ("liquid_core", "liquid_lib", "liquid") or "::test" in fn.id:
+            continue
+        k = 0
+        for bi, t in P.calls(fn):
+            f = t.get("f")
+            if not f or not t["args"]:
+                continue
+            hit = False
+            for a in t["args"][:1]:
+                ol = op_local(a)
+                if ol:
+                    ty = P.local_ty(fn, ol[0])
+                    if "Vec<alloc::boxed::Box<dyn liquid_core::runtime::renderable::Renderable" in ty and ty.lstrip("&mut ").startswith("alloc::vec::Vec<"):
+                        hit = True
+            if not hit:
+                continue
+            n += 1
+            last = f["id"].rsplit("::", 1)[1]
+            if last in BODY_SHRINK:
+                bad += 1
+                rep.viol(rule, "%s %s#%d" % (fn.key, last, k), P.where(fn, t["line"]),
+                         "`%s` on a vector of parsed body elements: parsed text/elements can be dropped, replaced or reordered before the template is built" % last)
+                k += 1
+    if not bad:
+        rep.ok(rule, "element vectors", "-", "%d uses of Vec<Box<dyn Renderable>> in parser/block code; none removes, replaces or reorders elements" % n)
+    rep.count(rule + ".uses", n)
